@@ -448,8 +448,8 @@ theorem finish_cases (w : World) (a : AsmDoc) (I res : Url) (cred : Cred) (probe
     (((finish w a I res cred probe pre).log = pre ∧ (finish w a I res cred probe pre).installed = false ∧
         (finish w a I res cred probe pre).outcome ≠ .ok ∧ (finish w a I res cred probe pre).outcome ≠ .post) ∨
      (ExchangeOk w a ∧ (finish w a I res cred probe pre).log = pre ++ (exchange w a.tokenEndpoint cred probe).2 ∧
-        (((exchange w a.tokenEndpoint cred probe).1 = .fail ∧ (finish w a I res cred probe pre).installed = false ∧
-            (finish w a I res cred probe pre).outcome = .exch) ∨
+        ((((exchange w a.tokenEndpoint cred probe).1 = .fail ∨ w.ntsFails = true) ∧ (finish w a I res cred probe pre).installed = false ∧
+            ((finish w a I res cred probe pre).outcome = .exch ∨ (finish w a I res cred probe pre).outcome = .tsErr)) ∨
          ((exchange w a.tokenEndpoint cred probe).1 = .good ∧ (finish w a I res cred probe pre).installed = true ∧
             (finish w a I res cred probe pre).outcome = .ok) ∨
          ((exchange w a.tokenEndpoint cred probe).1 = .goodExpired ∧ (finish w a I res cred probe pre).installed = true ∧
@@ -469,8 +469,8 @@ theorem finish_cases (w : World) (a : AsmDoc) (I res : Url) (cred : Cred) (probe
         have hx : ExchangeOk w a := ⟨iss, hf, hic⟩
         split
         · rename_i l4 he; simp [hx, he]
-        · rename_i l4 he; simp [hx, he]
-        · rename_i l4 he; simp [hx, he]
+        · rename_i l4 he; split <;> simp_all
+        · rename_i l4 he; split <;> simp_all
       · simp
       · simp
       · simp
